@@ -632,3 +632,28 @@ MANIFEST = dict(
     level_text='Theorems C14_boundaries, C14_read_outcomes, C14_short_read_noop, C14_all_accepted, C14_exactly_once, C14_closing, C14_oversize_refused/fitting_one_frame/never_splits, C14_isolation and C14_session_accepts are proved in Coq for every operation sequence, every datagram content and size, every read-buffer size and every interleaving of frame arrivals across streams (induction with an explicit representation invariant; no bound). The model (coq/Model/Datagram.v) is hand-written; on every run thousands of seeded op sequences are executed on the real datagramBufferedPipe and ~100 scenarios (all four encryption methods, 1-4 connections, arbitrary cross-connection delivery order) on a real unordered Session pair, every return value is compared with the extracted model, and an independent oracle checks per-stream exactly-once/whole/unmixed delivery, refusal of oversize writes and non-consuming short reads.',
     level_note='Trusted: Coq kernel; extraction (ExtrOcamlBasic); blocking/wake-up (sync.Cond), deadlines and the 2^31-1 buffer limit are not modelled beyond a would-block outcome; obfuscation and the switchboard are exercised but not modelled (the connection choice is read off the harness network). Relay level: client.RouteUDP (fixed in /repo e32244c: C14_relay_full holds, C14_refuted_prefix_relay documents the former 8192-byte buffer) and the server relay are replayed on loopback UDP; open known finding: the server relay forwards a datagram above the frame maximum cut to maxStreamUnitWrite bytes instead of refusing it (C14_server_relay_refuted / _partial).',
     design_ref='DESIGN.md section 6, C14')
+
+
+# ---- concurrency windows (tools/props/winlib.py): client.RouteUDP with two local applications, one relay goroutine parked
+import winlib
+
+TRUSTED = TRUSTED + ['schedule control of the window drivers: a goroutine is parked inside a call through a seam the harness owns (for RouteUDP, which works on a concrete *net.UDPConn, the only seam between stream.Read and WriteTo is the trace line of Stream.Read caught with a logrus hook; the run is also under the race detector); "the other goroutine has returned or is blocked on a lock" is read off runtime.Stack wait states; outcomes are judged by the property predicate only']
+MANIFEST = dict(MANIFEST, level_note=MANIFEST['level_note'] + ' Stream isolation at the client relay: two local UDP applications through client.RouteUDP with the relay goroutine of one parked between stream.Read and the forwarding, under the race detector (harness/client/c14_route_test.go).')
+_corr_before_windows = correspondence
+_replay_before_windows = replay
+
+
+def correspondence(ctx, verdict, pr):
+    res = _corr_before_windows(ctx, verdict, pr)
+    res['broken'] += winlib.c14_windows(ctx, verdict)
+    return res
+
+
+def replay(ctx, verdict):
+    if ctx.replay.get('kind') == 'window':
+        return winlib.replay(ctx, verdict)
+    return _replay_before_windows(ctx, verdict)
+
+
+def search(ctx, verdict, problems):
+    return winlib.search(ctx, verdict, problems)
